@@ -15,6 +15,10 @@ def wire_nontrivial(tok, res):
         return "digest" in res
     if tok[0] in ("srvcfg", "clicfg"):
         return "ca=1" in tok
+    if tok[0] == "ident":
+        return "ca=0" not in tok                     # a verifying config in a real handshake
+    if tok[0] in ("rstart", "rload", "rconn"):
+        return res.startswith("up=1")                # a real frpc carried fresh markers after the step
     return False
 
 
@@ -26,6 +30,9 @@ def wire_class(r):
     if r.startswith("up=1;fb="):
         f = dict(x.split("=") for x in r.split(";"))
         return "up fb=%s user=%s pay=%s vpay=%s upay=%s dec=%s" % (f["fb"], f["user"], f["pay"], f["vpay"], f["upay"], f["dec"])
+    if r.startswith("up=1;a="):
+        f = dict(x.split("=") for x in r.split(";"))
+        return "rig a=%s b=%s" % (f["a"], f["b"])
     if r.startswith("en="):
         f = dict(x.split("=") for x in r.split(";"))
         return "en=%s dis=%s skip=%s roots=%s" % (f["en"], f["dis"], f["skip"], f["roots"])
@@ -52,7 +59,17 @@ _T = ["sniff_custom_iff", "sniff_tls_iff", "sniff_plain_iff", "sniff_refuse_iff"
       "ca_reaches_iff_handshake", "sessionUpOn_sniffed", "wss_no_session", "quic_client_session_iff",
       "ca_session_requires_cert_every_protocol", "client_refuses_other_identity_every_protocol",
       "force_session_requires_tls_every_protocol", "interpretedOk_sound",
-      "gen_listener_handlers", "gen_quic_tls", "gen_server_tls_config", "gen_client_quic_tls"]
+      "gen_listener_handlers", "gen_quic_tls", "gen_server_tls_config", "gen_client_quic_tls",
+      # which identity a verifying client insists on: DNS names / IP literals, given or defaulted from serverAddr
+      "effServerName_default", "client_verified_name", "certMatchesName_ip", "certMatchesName_dns",
+      "ip_name_needs_ip_san", "dns_name_needs_dns_san", "session_requires_matching_identity",
+      "session_ip_name_requires_ip_san", "session_dns_name_requires_dns_san",
+      "defaulted_ip_name_refuses_dns_only_cert", "interpretedOk_identity", "identOk_sound",
+      "gen_client_tls_config", "gen_connector_server_name",
+      # reload histories (start, reloads, reconnects): the running proxy is built from the configuration in force
+      "sel_spec", "updateAll_inv", "start_inv", "step_inv", "run_inv", "running_built_from_current",
+      "every_configured_proxy_runs", "enc_in_force_is_configured", "reload_enc_payload_never_clear",
+      "reloadObsOk_model", "gen_reload_compare", "gen_enc_wrap_conditions"]
 
 PROP = {
         "level": "other",
@@ -66,22 +83,40 @@ PROP = {
         "rule": "wire engine: (a) real CheckAndEnableTLSServerConnWithTimeout over net.Pipe for all 256 first bytes x force, "
                 "with a real TLS handshake behind 0x16/0x17 (shows the byte is replayed / swallowed); (b) real "
                 "ServerConfig.Complete + NewServerTLSConfig (8 combinations), ClientCommonConfig.Complete + NewClientTLSConfig "
-                "(generated); (c) real TokenAuthSetterVerifier.SetLogin/SetPing/SetNewWorkConn on generated tokens / time "
+                "(generated; server names as a class: none, host names, IPv4 literals, near misses of literals); (b2) op ident: "
+                "the tls.Config returned by the real NewClientTLSConfig(cert, key, ca, name) in a real handshake (loopback TCP) "
+                "with a TLS server presenting a run-time certificate of issuer CA1 / CA2 x DNS SAN kind (none, frps.test, "
+                "other.test, localhost) x IP SAN kind (none, 127.0.0.1, 127.0.0.9); the Lean predicate identOk (with a CA: "
+                "accepted only if issued by that CA and valid for the name under Go's x509 rule — IP literals match IP SANs "
+                "only) is evaluated on every outcome; (c) real TokenAuthSetterVerifier.SetLogin/SetPing/SetNewWorkConn on generated tokens / time "
                 "stamps / scopes, frames built by msg.WriteMsg and searched for the token, key compared with the harness's "
                 "own md5; (d) a raw TCP peer against a real frps (tcpMux off): every first byte x force followed by the rest "
                 "of a valid Login frame; (e) certificate lattice (8 server configurations x 108 client configurations, "
                 "certificates made at run time with crypto/x509: CA1, CA2, server cert with SANs frps.test+127.0.0.1, client "
                 "certs from CA1 / CA2) through the real client.NewConnector against a real frps that listens on tcp (muxed "
                 "plain / tls / websocket), kcp and quic: the complete lattice over tcp, websocket and quic with the right key "
-                "and a generated third of it with a wrong key, generated samples over wss (48) and kcp (6); the Lean "
+                "and a generated third of it with a wrong key, generated samples over wss (48) and kcp (6); the identity "
+                "sub-lattice: a verifying client (TLS on, CA1 trusted) with every kind of server name — none with serverAddr "
+                "127.0.0.1, none with serverAddr localhost, frps.test, other.test, 127.0.0.1, 127.0.0.9 — against a frps whose "
+                "CA1 certificate has every DNS SAN kind x IP SAN kind (12), over tcp, websocket and quic (216 cases, force / "
+                "server CA / client certificate / custom byte generated), plus 90 generated cases of the same lattice for clients "
+                "that do not verify; the Lean "
                 "predicate interpretedOk (a reply frame of any kind only for a peer the force / identity rules admit on that "
                 "transport) is evaluated on every answer; (f) a real frps + real frpc "
                 "(tcp proxy, stcp proxy + stcp visitor, http proxy with user/password) through a recording TCP relay (protocol "
                 "quic: a recording UDP relay in front of the quic port), "
                 "crypto/rand markers as token, secret key, http password, http user, login user, payloads; with TLS and "
                 "tcpMux off the captured control stream is additionally decrypted with the token to show the secrets are "
-                "there under the cipher. non-trivial = TLS/refuse sniff, raw peer, TLS handshake attempt, relay run, digest "
-                "produced, CA configured; distinct = distinct (op line, result) pairs",
+                "there under the cipher; (g) reload histories: ONE real frpc (client.Service, reloaded with "
+                "Service.UpdateAllConfigurer and freshly built configurers) + a real frps through the recording relay, two "
+                "proxies (tcp; tcp or udp): a generated start configuration (mostly without useEncryption), then 3-5 generated "
+                "steps — useEncryption switched alone, together with a bandwidth limit change that keeps / changes the presence "
+                "of a limit, together with another field; only the limit / compression / limit mode / another field changed; "
+                "a proxy removed / added back; the same configuration again; the session cut at the relay (reconnect) — and "
+                "after EVERY step a fresh crypto/rand marker is echoed through each proxy and searched in the capture; the "
+                "Lean predicate reloadObsOk (TLS on, or useEncryption in the configuration in force => marker absent) is "
+                "evaluated on every step, the model state (WireReload.step) is carried along the ops. non-trivial = TLS/refuse sniff, raw peer, TLS handshake attempt, relay run, digest "
+                "produced, CA configured, verifying ident handshake, reload step with traffic; distinct = distinct (op line, result) pairs",
         "trusted": COMMON_TRUST + [
             "model Frp/Model/Wire.lean written by hand (sniff, Complete, tls.Config records, dial hooks, message channel "
             "table, wrapper stacks); tied by the wire engine and by the regenerated facts Frp/Gen/AuthFacts.lean "
@@ -91,20 +126,35 @@ PROP = {
             "svr.tlsConfig and of the tls.Config handed to quic.ListenAddr / quic.DialAddr (initialiser + every field "
             "write), the guarded field writes of NewServerTLSConfig); the provenance reading sees assignments in the "
             "function body only, not mutation through aliases or callees",
-            "crypto/tls + crypto/x509 verification (chain to RootCAs/ClientCAs, ServerName/IP SAN match) is ASSUMED as "
-            "`serverCertAccepted` / `clientCertAccepted`; sampled by the certificate lattice (864 cases x tcp / websocket / quic); ALPN agreement in QUIC mode is "
-            "ASSUMED as `alpnOk`",
+            "crypto/tls + crypto/x509 verification (chain to RootCAs/ClientCAs; VerifyHostname: a name that parses as an IP "
+            "address is matched against the IP SANs only, any other name against the DNS SANs only) is ASSUMED as "
+            "`serverCertAccepted` / `certMatchesName` / `clientCertAccepted`; sampled by the certificate lattice (864 cases x "
+            "tcp / websocket / quic), the identity sub-lattice (12 SAN kinds x 6 name kinds x 3 transports) and the ident "
+            "handshakes; ALPN agreement in QUIC mode is ASSUMED as `alpnOk`",
+            "model Frp/Model/WireReload.lean written by hand (Manager.UpdateAll's two loops, NewWrapper, a new session after "
+            "a reconnect); tied by the regenerated facts gen_reload_compare (the delete condition of UpdateAll, the calls made "
+            "on wrappers, no later write to Wrapper.Cfg / BaseProxy.baseCfg, NewProxy built from pw.Cfg), "
+            "gen_enc_wrap_conditions (the condition of all six libio.WithEncryption wraps), gen_client_tls_config and "
+            "gen_connector_server_name (every field NewClientTLSConfig writes with its guard; where the server name comes "
+            "from), and by the rstart / rload / rconn ops",
         ],
         "assumptions": [
             "PARTIAL / level other: that TLS and AES-CFB output does not reveal its plaintext is cryptography and is not "
             "stated; the theorems say which layers every message kind and the payload pass (for every configuration), the "
-            "engine observes marker absence on a real wire for 28 configurations (tcp, websocket, quic)",
+            "engine observes marker absence on a real wire for 28 configurations (tcp, websocket, quic) and after every step of 15 reload histories",
             "the message-to-channel table (`channel`) is hand-read from every msg.WriteMsg / dispatcher Send site; only "
             "NewControl's cipher wrap and the secret-named fields are regenerated by the translator",
             "driven transports: recording relay (marker absence): tcp with and without tcpMux, websocket, quic (recording "
             "UDP relay in front of the quic port); session / identity rules: tcp, websocket, quic (complete certificate "
             "lattice), wss and kcp (samples); no recording relay in front of the kcp port; OIDC bearer tokens (Login.PrivilegeKey holds the token "
             "itself under auth.method=oidc) and NewProxy.GroupKey are outside the property's wording and not modelled",
+            "server-name domain of the model: IPv4 literals in dotted-decimal form and host names compared exactly (lower case); "
+            "IPv6 / bracketed literals, upper case, trailing dots and wildcard SANs are generated but skipped by the driver "
+            "(counted as skipped)",
+            "reload histories are driven for the proxy manager (tcp and udp proxies, TLS off and on, tcpMux on and off); the "
+            "visitor manager's reload (same two loops) and the other proxy types are covered by the model only; with "
+            "compression and no cipher on a clear transport whether a marker survives the compressor is taken from the "
+            "observation",
             "observation recorded as theorem secretlyProtected_iff / emptyToken_witness: both AES-CFB layers are keyed "
             "by pbkdf2(token, constant salt); with an empty token and TLS off the cipher key is public",
         ],
@@ -114,21 +164,32 @@ META = {
         "engine": "lean+translator(AuthFacts)+harness(wire)",
         "design_ref": "DESIGN.md §6 C05",
         "technique": "Lean 4 decision theorems over the full configuration space (first-byte partition for all bytes, forced "
-                     "TLS, tls.Config identity settings, layer table for all 18 message kinds x every path configuration), "
+                     "TLS, tls.Config identity settings incl. the x509 name rule for host names / IP literals, layer table for "
+                     "all 18 message kinds x every path configuration), an invariant over all reload / reconnect histories of "
+                     "the client proxy manager, "
                      "facts regenerated from the Go source, and an observed wire (recording relay between real frpc and frps, "
-                     "exhaustive sniff, raw-peer and certificate lattices)",
+                     "exhaustive sniff, raw-peer and certificate lattices, reload histories with fresh markers after every step)",
         "text": "Partial (cryptographic secrecy is not expressible). Proved for the model, kernel-checked: a forcing server "
                 "(force, or a trusted CA) never treats any first byte as plaintext and a peer that does not complete an "
                 "acceptable TLS handshake never reaches message decoding — on every public listener (tcp, tls-muxed, kcp, "
                 "websocket, and quic, whose tls.Config is a clone of the server's with only ALPN changed) and, at session "
                 "level, for every control transport (tcp, kcp, websocket, wss, quic); a trusted CA implies RequireAndVerifyClientCert; a "
-                "client with a CA verifies chain and server name and gets no session with another identity; the token "
+                "client with a CA verifies chain and server name and gets no session with another identity — for host names and "
+                "IP literals (Go's rule: an IP literal matches IP SANs only), given or defaulted from serverAddr, on every "
+                "control transport: a session implies a certificate of the trusted CA whose SANs of the name's own kind contain "
+                "the name; in every history of an frpc (any start configuration, any sequence of reloads and reconnects) the "
+                "configuration a running proxy was built from — the one its work connections are wrapped by and the one frps "
+                "was told — is the entry of the configuration in force, so a proxy whose current configuration says "
+                "useEncryption has the cipher layer; the token "
                 "travels only as digest in every message kind; NewProxy (the only carrier of secret key / HTTP password in "
                 "clear form) always passes the token-keyed control cipher on public listeners; with TLS every message kind "
                 "and the payload are under TLS; without TLS exactly Login, LoginResp, NewWorkConn, StartWorkConn, NatHoleSid, "
                 "NewVisitorConn(Resp) (and unencrypted payload) are readable; useEncryption puts the cipher layer on both "
-                "ends in the same order. Observed on the real code on every run: 512 sniff cases, 512 raw-peer cases, about 3400 "
-                "certificate cases over tcp / websocket / quic / wss / kcp, 28 recorded frpc<->frps sessions (tcp, websocket, quic) with random markers, 3000 token-setter cases.",
+                "ends in the same order. Observed on the real code on every run: 512 sniff cases, 512 raw-peer cases, about 3800 "
+                "certificate cases over tcp / websocket / quic / wss / kcp (incl. the identity sub-lattice over 12 SAN kinds), 500 "
+                "handshakes of NewClientTLSConfig's config against certificates of every SAN kind, 28 recorded frpc<->frps sessions "
+                "(tcp, websocket, quic) with random markers, 15 reload histories of a real frpc (about 75 steps, each with fresh markers), "
+                "3000 token-setter cases.",
         "note": "Trusted: Lean kernel; hand-written model Frp/Model/Wire.lean; translator gen_authfacts.go; harness. Assumed: "
                 "crypto/tls, crypto/x509, golib crypto. Not covered: marker observation on the kcp UDP path, OIDC bearer token in "
                 "Login, group keys, xtcp peer-to-peer traffic (not on the frpc<->frps path).",
